@@ -5,8 +5,7 @@ Status: bounded run-time contracts only (props/bounded_C06.py) until the proof o
 from vf.helpers import bounded_tasks
 
 META = dict(
-    level='exploration',
-    expects_obligations=False,
+    level='other',
     explanation='Run-time contracts on the real functions over the bounded domain stated per driver (bounded stand-in; nothing proved).',
     trusted_base=['oracles of props/bounded_C06.py (independent of dadi: exact rationals, mpmath, dense linear algebra, explicit index loops)'],
     rule='cases enumerated or sampled as stated in each driver\'s bound; a case is non-trivial unless the driver marks it degenerate; distinct by its key',
@@ -14,13 +13,14 @@ META = dict(
 
 
 def tasks(tier):
-    return bounded_tasks('C06', tier)
+    from vf.core import Task
+    return [Task('props.wire:run', name='C06/wire.c06_pulse_roles', fname='c06_pulse_roles', timeout=300)] + bounded_tasks('C06', tier)
 
 
 MANIFEST_ENTRY = dict(
-    category='exploration',
+    category='other',
     engine='bounded',
-    technique='bounded run-time contracts on the real functions with independent oracles (stand-in for the contract proofs, never counted as proved)',
+    technique='sidecar contracts on the real functions: wiring / closed-form obligations from the AST discharged by z3 and the ring normaliser where the functions are within reach; bounded run-time contracts with independent oracles for the rest (never counted as proved)',
     text='Deposition law and marginal conservation for every constructor and pulse function, simplex acceptance/rejection, removal and reordering.',
     note='bounded: see coverage.bounded.drivers[].bound in the evidence file for the exact domain of every driver',
 )
